@@ -108,18 +108,36 @@ def run_solver(name, path, budget, want_model=False):
     return first, dt, out
 
 
-CACHE_DIR = os.path.join(os.path.dirname(os.path.dirname(os.path.abspath(__file__))), ".cache", "smt")
+CACHE_DIR = os.path.join(os.path.dirname(os.path.dirname(os.path.abspath(__file__))), ".cache")
+CACHE_DB = os.path.join(CACHE_DIR, "smt.sqlite")
+CACHE_MAX_ROWS = 400_000  # a full set of checks has ~40k distinct goals; runs on changed trees add more
+
+
+def _cache_conn():
+    import sqlite3
+
+    os.makedirs(CACHE_DIR, exist_ok=True)
+    c = sqlite3.connect(CACHE_DB, timeout=20)
+    c.execute("PRAGMA journal_mode=WAL")
+    c.execute("PRAGMA synchronous=OFF")
+    c.execute("CREATE TABLE IF NOT EXISTS smt (key TEXT PRIMARY KEY, val TEXT)")
+    return c
 
 
 def _cache_get(key):
+    """one sqlite file (not one file per goal: 200k tiny files cost 800 MB of disk blocks); any failure = cache miss"""
     if os.environ.get("VERIF_NO_SMT_CACHE"):
         return None
     try:
-        with open(os.path.join(CACHE_DIR, key)) as fh:
-            import json
+        import json
 
-            return json.load(fh)
-    except (OSError, ValueError):
+        c = _cache_conn()
+        try:
+            row = c.execute("SELECT val FROM smt WHERE key = ?", (key,)).fetchone()
+        finally:
+            c.close()
+        return json.loads(row[0]) if row else None
+    except Exception:  # noqa
         return None
 
 
@@ -129,12 +147,15 @@ def _cache_put(key, res):
     try:
         import json
 
-        os.makedirs(CACHE_DIR, exist_ok=True)
-        tmp = os.path.join(CACHE_DIR, f".{key}.{os.getpid()}.{next(_seq)}")
-        with open(tmp, "w") as fh:
-            json.dump({k: res[k] for k in ("status", "backend", "time", "answers")}, fh)
-        os.replace(tmp, os.path.join(CACHE_DIR, key))
-    except OSError:
+        c = _cache_conn()
+        try:
+            if next(_seq) % 500 == 0 and c.execute("SELECT COUNT(*) FROM smt").fetchone()[0] > CACHE_MAX_ROWS:
+                c.execute("DELETE FROM smt")
+            c.execute("INSERT OR REPLACE INTO smt VALUES (?, ?)", (key, json.dumps({k: res[k] for k in ("status", "backend", "time", "answers")})))
+            c.commit()
+        finally:
+            c.close()
+    except Exception:  # noqa
         pass
 
 
